@@ -8,6 +8,7 @@ def analyse(case, obs):
     join (from successive snapshots of _done), and the state at the label where join left its loop"""
     daemon = {i + 1: m['daemon'] for i, m in enumerate(case['members'])}
     finish_order, consumed, prev_dq, leave, spawned = [], [], [], None, []
+    already = set()
     cancel_pending = False
     for idx, (label, snap) in enumerate(obs['trace']):
         if label[0] == 'cancelJ':
@@ -15,6 +16,8 @@ def analyse(case, obs):
         if label[0] == 'spawn':
             spawned.append(label[1])
             daemon.setdefault(label[1], label[2])
+            if len(label) > 3 and label[3] is not None:
+                already.add(label[1])          # added when it had finished: it enters _done at once
         if label[0] == 'finish' and not daemon.get(label[1], False):
             finish_order.append(label[1])
         if snap is None:
@@ -30,7 +33,7 @@ def analyse(case, obs):
                          'by_cancel': cancel_pending}
             cancel_pending = False
         prev_dq = dq
-    return {'finish_order': finish_order, 'consumed': consumed, 'doneq': prev_dq, 'leave': leave, 'daemon': daemon}
+    return {'finish_order': finish_order, 'consumed': consumed, 'doneq': prev_dq, 'leave': leave, 'daemon': daemon, 'already': already}
 
 
 class C10(Prop):
@@ -42,7 +45,7 @@ class C10(Prop):
     shard = 50
     rule = ('the programs of C09 (real TaskGroup on a single-step loop, 1-4 members, 0-2 daemons, four policies, three ways of '
             'joining, members finishing with None / value / exception / cancellation in random order, joiner cancelled at random '
-            'instants) with the per-handle comparison of group state, ready queue and cancellation requests against the model; '
+            'instants; retain on or off; already finished tasks handed to the constructor and to add_task) with the per-handle comparison of group state, ready queue and cancellation requests against the model; '
             'the C10 oracle is computed from the REAL run alone: members consumed by join (successive snapshots of _done) against '
             'the finishing order, completed/result/exception against the first consumed member that counts, the state at the '
             'label where join left its loop against the policy, the cancellation requests issued there, the exception of the '
@@ -55,7 +58,11 @@ class C10(Prop):
         return [mk('object', [['finish', 0, ['ret', None]], ['tick'], ['tick'], ['finish', 0, ['ret', 1]]]),
                 mk('any', [['finish', 1, ['ret', None]]]),
                 mk('all', [['finish', 2, ['ret', 1]], ['tick'], ['finish', 0, ['exc']]]),
-                mk('none', [])]
+                mk('none', []),
+                dict(mk('all', [['addfin', False, 'RetVal'], ['tick'], ['finish', 0, ['ret', 1]], ['tick'], ['addfin', False, 'RetNone']]),
+                     retain=True, init=[[False, 'RetVal'], [True, 'RetVal'], [False, 'Exc']]),
+                dict(mk('object', [['finish', 0, ['ret', None]], ['addfin', False, 'RetNone'], ['tick'], ['addfin', True, 'Exc']]),
+                     retain=False, init=[[False, 'RetNone']])]
 
     def generate(self, rng, n, tier):
         for _ in range(n):
@@ -78,6 +85,17 @@ class C10(Prop):
         seq = a['consumed'] + a['doneq']
         if len(set(seq)) != len(seq):
             return f'a member is yielded twice: consumed {a["consumed"]}, queued {a["doneq"]}'
+        for _, sn in obs['trace']:
+            if sn is not None and not sn['tasks_ok']:
+                return (f'the tasks attribute is {sn["tasks"]}: not the non-daemon members '
+                        f'{"added so far (retain)" if case.get("retain") else "still running"}')
+        if obs.get('retained') is False:
+            return 'retain: after join, tasks does not hold every non-daemon member'
+        errs = [e for e in obs.get('loop_errors', ()) if 'never retrieved' not in e]
+        if errs:
+            return 'an exception escaped into the event loop: ' + errs[0][:200]
+        # members added when already finished enter _done at the instant of the addition; the others in finishing order
+        seq = [t for t in seq if t not in a['already']]
         if seq != a['finish_order'][:len(seq)]:
             return f'members are not consumed in completion order: consumed+queued {seq}, finished {a["finish_order"]}'
         counts = lambda t: not (pol == 'object' and out.get(str(t)) == 'RetNone')
@@ -131,6 +149,9 @@ class C10(Prop):
         a = analyse(case, obs)
         h = ['policy=' + case['policy'], 'mode=' + case['mode'], 'consumed=%d' % len(a['consumed']),
              'left_loop' if a['leave'] else 'in_loop']
+        h.append('retain' if case.get('retain') else 'no_retain')
+        if a['already']:
+            h.append('already_finished_member_added')
         if obs['completed'] is not None:
             h.append('completed_' + str(obs['outcomes'].get(str(obs['completed']))))
         return h
